@@ -15,7 +15,7 @@ PLAN = {
     "C03": {"mc": ["MC_Lease", "MC_DeadLetter"], "gen": [("Gen_Mixed", 120, 3000, 25, True), ("Gen_Ordered", 60, 1500, 30, True), ("Gen_DeadLetter", 60, 1500, 32, True)]},
     "C04": {"mc": ["MC_Lease", "MC_Timing"], "gen": [("Gen_Mixed", 80, 2500, 25, True), ("Gen_Timing", 60, 2000, 30, True), ("Gen_DeadLetter", 40, 1000, 32, True),
                                                      ("Gen_Lease", 100, 3000, 60, False, 100)]},
-    "C05": {"mc": ["MC_Ordered"], "gen": [("Gen_Ordered", 240, 6000, 30, True), ("Gen_Mixed", 80, 2000, 25, True)]},
+    "C05": {"mc": ["MC_Ordered"], "impl": ["MC_ImplSnap", "MC_ImplSeek"], "gen": [("Gen_Ordered", 240, 6000, 30, True), ("Gen_Mixed", 80, 2000, 25, True)]},
     "C06": {"mc": ["MC_DeadLetter"], "gen": [("Gen_DeadLetter", 240, 6000, 32, True), ("Gen_Mixed", 60, 1500, 25, True)]},
     "C12": {"mc": ["MC_Names"], "gen": [("Gen_Names", 300, 6000, 32, False)]},
     "C13": {"mc": ["MC_Seek"], "gen": [("Gen_Seek", 120, 4000, 32, True), ("Gen_Snap", 80, 4000, 30, True), ("BFS_Snap", 0, 60000, 8, False)]},
@@ -27,6 +27,17 @@ PLAN = {
     "C09": {"mc": ["MC_Lease"], "gen": [("Gen_Mixed", 14, 600, 25, False), ("Gen_Prune", 8, 300, 34, False),
                                          ("Gen_DeadLetter", 8, 300, 32, False), ("Gen_Seek", 8, 300, 32, False)],
             "fault": ["fail", "cancel"]},
+}
+
+# mechanism-level configurations (spec/BusImpl.tla): the topics / subscriptions their Init state
+# contains, as scenario steps (must mirror mcTopics / mcSubs of the module)
+_CFG = {"ttl": 50, "mttl": 6, "ord": False, "filt": {"op": "true"}, "minB": 2, "maxB": 2, "dlt": "", "maxAtt": 0, "push": "", "labels": {}}
+IMPL_SETUP = {
+    "MC_ImplSnap": [{"op": "CreateTopic", "name": "t1"},
+                    {"op": "CreateSub", "name": "s1", "topic": "t1", "cfg": dict(_CFG, ord=True)},
+                    {"op": "CreateSub", "name": "s2", "topic": "t1", "cfg": dict(_CFG)}],
+    "MC_ImplSeek": [{"op": "CreateTopic", "name": "t1"},
+                    {"op": "CreateSub", "name": "s1", "topic": "t1", "cfg": dict(_CFG, ord=True, mttl=3)}],
 }
 
 LEVEL_ASSUMPTIONS = [
@@ -140,6 +151,18 @@ def _run(ctx, replay):
                 # the nominal clock ahead of the wall clock
                 scen.append({"id": "%s-%d-%d" % (mod, seed, i), "unit_ms": 20000 if plan.get("fault") else unit,
                              "steps": h, "drain": drain, "family": mod})
+    # (2b) refinement check of the mechanism model against the contract: every design-level
+    # counterexample becomes a scenario; only what the REAL code does with it counts
+    impl_stats = []
+    if not replay:
+        for mod in plan.get("impl", []):
+            st, cex = vlib.tlc_impl_cex(ctx, mod, timeout=2400 if tier == "thorough" else 900)
+            impl_stats.append(st)
+            states += st["distinct"]
+            transitions += st["states"]
+            for i, c in enumerate(cex):
+                scen.append({"id": "%s-cex-%d" % (mod, i), "unit_ms": 1000, "steps": IMPL_SETUP[mod] + c["hist"], "drain": False,
+                             "family": mod, "design_viols": c["viols"]})
     if not scen:
         raise ToolError("no scenarios generated")
     sp = os.path.join(ctx.scratch, "scenarios.ndjson")
@@ -211,6 +234,7 @@ def _run(ctx, replay):
         "scenarios_executed": len([r for r in res if r["status"] == "ok"]),
         "scenarios_discarded": len([r for r in res if r["status"] != "ok"]),
         "known_findings_hit": {k: h["n"] for k, h in hits.items()},
+        "mechanism_refinement": impl_stats,
     }
     level = "model_checking"
     if plan.get("fault"):
